@@ -649,8 +649,19 @@ def stream_cli(ctx, nss, cfgmod, tmp):
             ctx.violation("config_from_fits", "raises", f"{type(e).__name__}: {str(e)[:120]}", case)
 
 
+TRUSTED_EXTRA = TRUSTED_EXTRA + ["the source tie's reader harness/cfgtrans.py: its recognised statement forms of config_from_fits / results_table.init (cross-checked on this run against a spied real call: coverage.source_tie.reader)"]
+
+
+def regen():
+    """source tie: Gen/Src/C16.lean regenerated from config_from_fits / results_table.init of the working tree (harness/cfgtrans.py)"""
+    import cfgtrans
+    return cfgtrans.regen_c16()
+
+
 def run(ctx: Ctx):
     nss, cfgmod, results_table = _imports()
+    import cfgtrans
+    cfgtrans.crosscheck_c16(ctx, cfgmod, results_table)
     tmp = tempfile.mkdtemp(prefix="c16-")
     path = os.path.join(tmp, "t.fits")
     check_flatten_model(ctx)
